@@ -6,6 +6,7 @@ pub mod frih;
 pub mod gen;
 pub mod genair;
 pub mod json;
+pub mod mutate;
 pub mod prng;
 pub mod refmath;
 pub mod report;
